@@ -84,7 +84,7 @@ def labels_in(lines, pid):
     s = []
     for l in lines:
         for lab in (l.label or "").split(","):
-            if lab.startswith(pid + ".") and lab not in s and not lab.endswith("~hint"):
+            if lab.startswith(pid + ".") and lab not in s and not lab.endswith(("~hint", "~call")):
                 s.append(lab)
     return s
 
